@@ -79,11 +79,14 @@ def arrHandler (prev : Readers) (depth : Nat) : Handler ArrHS := fun hs _ suffix
 /-- first backslash in `field`, if any -/
 def findBackslash (field : Bytes) : Option Nat := field.findIdx? (· == 92)
 
+/-- the key `HandleObjectValue` stores under: the raw field, unescaped from its first backslash on -/
+def objKeyOf (field : Bytes) : R Bytes :=
+  match findBackslash field with
+  | some i => unescapeStringContent (field.extract i field.size) (field.extract 0 i)
+  | none => { val := field, p := 0, err := none }
+
 def objHandler (prev : Readers) (depth : Nat) : Handler ObjHS := fun hs field suffix =>
-  let key : R Bytes :=
-    match findBackslash field with
-    | some i => unescapeStringContent (field.extract i field.size) (field.extract 0 i)
-    | none => { val := field, p := 0, err := none }
+  let key : R Bytes := objKeyOf field
   if key.panicked then ({ hs with panicked := true, err := some .other }, 0, some 1)
   else match key.err with
   | some e => ({ hs with err := some e }, 0, some 1)
